@@ -20,6 +20,7 @@ struct Case {
     first: MenuKind,
     after: Option<MenuKind>,
     tail_len: usize,
+    extremes_only: bool,
 }
 
 fn build(tier: Tier) -> Vec<Case> {
@@ -43,6 +44,21 @@ fn build(tier: Tier) -> Vec<Case> {
                 first,
                 after: None,
                 tail_len: if thorough { 4 } else { 3 },
+                extremes_only: false,
+            });
+        }
+        // two structural extremes in a row (inconsistent sequences of datagrams: a "last" fragment followed by a
+        // higher-numbered one, two different totals ...): in the quick tier for the formats that number their datagrams (GameSpy 1 parts, GameSpy 3 splitnum packets,
+        // master-server pages); the Valve transport gets X(2) in the thorough tier
+        if full && matches!(t.family, Family::Gs1 | Family::Gs3 | Family::Master) {
+            v.push(Case {
+                label: format!("{} retries=0 X(2) structural extremes only", t.name),
+                target: t.clone(),
+                retries: 0,
+                first: MenuKind::Reduced,
+                after: Some(MenuKind::Reduced),
+                tail_len: 1,
+                extremes_only: true,
             });
         }
         if thorough && full {
@@ -53,6 +69,7 @@ fn build(tier: Tier) -> Vec<Case> {
                 first: MenuKind::Reduced,
                 after: Some(MenuKind::Second),
                 tail_len: 2,
+                extremes_only: false,
             });
         }
     }
@@ -64,6 +81,7 @@ fn build(tier: Tier) -> Vec<Case> {
             first: MenuKind::Reduced,
             after: None,
             tail_len: 2,
+            extremes_only: false,
         });
     }
     v
@@ -102,7 +120,7 @@ impl Prop for C01 {
          well-formed datagram; every proper prefix; every single-byte substitution at every offset with {00,01,02,0A,5C,7F,80,FE,FF}; the valid two-byte UTF-8 character C3 A9 written over every pair of adjacent bytes; \
          every decimal number replaced by each of 7 boundary texts; every byte string of length <= 3 (quick) / 4 (thorough) over \
          {00,01,0A,5C,80,C3,FE,FF} appended to each header prefix; format-specific structural extremes; three 65507-byte datagrams; \
-         timeout; TCP connects may be refused. X(1) = all executions with one deviation (complete); thorough adds X(2) with the \
+         timeout; TCP connects may be refused. X(1) = all executions with one deviation (complete); X(2) over the structural extremes alone (every pair of extremes at any two receives) for GameSpy 1, GameSpy 3 and the master server; thorough adds X(2) with the \
          second deviation from the reduced menu. Every GAMES entry through the generic dispatch and every macro-generated \
          games::<id>::query run X(1) with the reduced menu (prefixes + extremes + oversize + timeout). Oracle: the call returns \
          Ok or Err — no panic (overflow checks on), no process death, no hang after silence. distinct_nontrivial = distinct \
@@ -134,7 +152,7 @@ impl Prop for C01 {
                     after: case.after,
                     tail_len: case.tail_len,
                     refuse_tcp: true,
-                    extremes_only: false,
+                    extremes_only: case.extremes_only,
                 };
                 let ts = timeouts(case.retries);
                 let call = case.target.call.clone();
